@@ -284,11 +284,45 @@ def plan(tier):
     specs += [{"kind": "direct", "n": 1200 if q else 12000, "max": 1024 if q else 4096} for _ in range(4)]
     specs += [{"kind": "pred", "n": 1500 if q else 15000} for _ in range(4)]
     specs += [{"kind": "big", "n": 6 if q else 80} for _ in range(4)]
+    specs += [{"kind": "lzwfull", "n": 16 if q else 60}]
     return specs
+
+
+def lzwfull_cases(seed, n):
+    """LZW data from an encoder that fills the code table to entry 4095 and keeps using the full table before it
+    clears it: tens of kilobytes over a small alphabet, so that the last entries are used as well."""
+    rnd = random.Random(seed)
+    for _ in range(n):
+        k = rnd.choice([2, 3, 4, 6])
+        data = bytes(rnd.randrange(k) + 65 for _ in range(rnd.choice([30000, 45000, 60000])))
+        codes = F.lzw_codes_full(data, rnd.choice([0, 100, 1500, 10 ** 9]))
+        yield {"kind": "lzwfull", "data": data, "raw": F.lzw_pack(codes), "uses4095": 4095 in codes, "uses4094": 4094 in codes,
+               "filter": rnd.choice(["LZWDecode", "LZW"])}
+
+
+def run_lzwfull(case):
+    from pdfminer.pdftypes import PDFStream
+    from pdfminer.psparser import LIT
+
+    classes = ["lzw-full-table", "uses-code-4095" if case["uses4095"] else "code-4095-unused"]
+    assert F._ref_lzw_decode(case["raw"]) == case["data"], "harness: full-table LZW encoder"
+    try:
+        got = PDFStream({"Filter": LIT(case["filter"])}, case["raw"]).get_data()
+    except Exception as e:
+        return Outcome(classes, True, fail="LZW data with a full code table (%d bytes): raised %s: %s" % (len(case["data"]), type(e).__name__, e))
+    if got != case["data"]:
+        i = next((j for j in range(min(len(got), len(case["data"]))) if got[j] != case["data"][j]), min(len(got), len(case["data"])))
+        return Outcome(classes, True, fail="LZW data with a full code table: %d bytes decoded, %d written, first difference at %d "
+                       "(code 4095 used: %r)" % (len(got), len(case["data"]), i, case["uses4095"]))
+    return Outcome(classes, case["uses4095"], sample={"bytes": len(case["data"]), "uses4095": case["uses4095"]})
 
 
 def run_shard(spec, ctx):
     k = spec["kind"]
+    if k == "lzwfull":
+        from vlib.runner import enum_search
+
+        return enum_search(ctx, lzwfull_cases(ctx.hseed("lzwfull"), spec["n"]), run_lzwfull)
     if k == "doc":
         return hyp_search(ctx, doc_cases(spec["max"]), run_case, spec["n"])
     if k == "direct":
